@@ -20,13 +20,13 @@ StrT(i, b) == TStr(80 + i, b)
 Fxvy == <<120, 37, 118, 121>>                 \* "x%vy"
 
 QOps == { SSafeString(<<A>>), SSafeString(StartM), SSafeString(<<194, 186>>), SUnsafeString(<<A>> \o RuneErrorBytes), SSafeUint(76, -1), SSafeString(<<A>> \o EndM), SUnsafeString(<<A>>), SUnsafeString(<<NL, A>>), SUnsafeString(<<>>),
-          SUnsafeString(EndM), SSafeRune(8250), SUnsafeRune(NL), SUnsafeByte(226), SSafeInt(71, 41),
-          SPrint(<<StrT(1, <<A, NL>>)>>), SPrint(<<TSafe(90, StrT(2, <<A>>))>>), SPrintf(Fxvy, <<IntT(2)>>), SWrite(<<A>>),
+          SUnsafeString(EndM), SSafeRune(8250), SUnsafeRune(233), SUnsafeRune(NL), SUnsafeByte(226), SSafeInt(71, 41),
+          SPrint(<<StrT(1, <<A, NL>>)>>), SPrint(<<TSafe(90, StrT(2, <<A>>))>>), SPrintf(Fxvy, <<IntT(2)>>), SWrite(<<A>>), SWriteStr(<<NL, A>>), SWriteByte(A), SWriteRune(8250),
           \* joining: a slice, a nil operand
           SJoinTo(<<44>>, 160, TSlice(161, <<TStr(162, <<A>>), TInt(163, 46)>>)), SJoinTo(<<44>>, 160, TNil(164)) }
 TOps == QOps \cup { SSafeString(<<NL>>), SSafeBytes(Cross), SUnsafeBytes(<<A, 226>>), SSafeByte(A), SUnsafeString(<<PTok + 5>>),
                     SSafeRune(55296), SUnsafeRune(8249), SPrint(<<IntT(3), StrT(3, <<A>>)>>), SSafeString(<<>>),
-                    SPrintf(<<37, 118, 37, 118>>, <<StrT(4, <<A>>), TSafe(91, IntT(4))>>), SWrite(<<NL>>), SSafeString(<<226, 128>>),
+                    SPrintf(<<37, 118, 37, 118>>, <<StrT(4, <<A>>), TSafe(91, IntT(4))>>), SWrite(<<NL>>), SSafeString(<<226, 128>>), SWriteStr(StartM), SWriteByte(226), SWriteByte(NL), SWriteRune(55296), SWriteRune(128512),
                     SSafeUint(76, -1), SSafeFloat(77), SSafeString(RuneErrorBytes), SSafeString(<<226, 130, 186>>), SPrint(<<StrT(5, <<>>)>>), SSafeString(EndM), SSafeBytes(<<A>> \o EndM),
                     \* joining: a delimiter that holds an envelope, an empty slice, non-slice operands, a typed slice
                     SJoinTo(<<A>> \o StartM \o <<A>> \o EndM, 176, TSlice(175, <<TInt(165, 47), TInt(166, 48), TStr(167, <<A, 226>>)>>)), SJoinTo(<<44>>, 160, TSlice(174, <<>>)),
@@ -70,7 +70,9 @@ DenJoin(ops, acc) == IF ops = <<>> THEN acc ELSE DenJoin(Tail(ops), DenArgs(Head
 DenOp(op, acc) ==
   LET add(txt, safe, ok) == << acc[1] \o Esc(txt), acc[2] \o (IF safe THEN Esc(txt) ELSE OnlyOf(txt, NL)), acc[3] /\ ok, acc[4] >>
   IN CASE op.o \in {"SafeString", "SafeBytes"} -> add(op.b, TRUE, TextOK(op.b))
-       [] op.o \in {"UnsafeString", "UnsafeBytes", "Write"} -> add(op.b, FALSE, TextOK(op.b))
+       [] op.o \in {"UnsafeString", "UnsafeBytes", "Write", "WriteString"} -> add(op.b, FALSE, TextOK(op.b))
+       [] op.o = "WriteRune"  -> add(EncodeRune(op.n), FALSE, ValidRune(op.n))
+       [] op.o = "WriteByte"  -> add(IF op.n >= 128 THEN <<Q>> ELSE <<op.n>>, FALSE, op.n < 128)
        [] op.o = "SafeRune"   -> add(EncodeRune(op.n), TRUE, ValidRune(op.n))
        [] op.o = "UnsafeRune" -> add(EncodeRune(op.n), FALSE, ValidRune(op.n))
        [] op.o = "SafeByte"   -> add(<<op.n>>, TRUE, op.n < 128)
